@@ -15,7 +15,7 @@ RULE = (
     "problems of 1-8 (thorough: 1-12) streams drawn from a per-problem temperature palette (coincident / nested ranges, ~10% isothermal, "
     "only-hot / only-cold shares), label-safe zone label sets (flat, nested), utilities present or absent, optionally unit-operation "
     "targeting; oracle = rational-arithmetic cascade over the streams labelled into each zone; non-trivial = some zone holds >= 2 streams "
-    "whose shifted ranges overlap or touch; distinct by canonical JSON."
+    "whose shifted ranges overlap or touch; distinct by canonical JSON. part retarget: one prepared zone tree targeted through the exported steps (prepare_problem, get_targets), one stream of a unit-operation zone exchanged for another (same or other kind), parents re-import, targeted again; every zone must report the exact cascade of the streams it holds now."
 )
 ASSUMPTIONS = [
     "generated temperatures are multiples of 1e-3 K or shared 6-dp thirds, so distinct breakpoints are >= 3.3e-4 K apart (outside the implementation's 1e-6/1e-5 merging windows)",
@@ -159,6 +159,91 @@ def with_explicit_tree(draw, base):
     return case
 
 
+def eval_retarget(case) -> Outcome:
+    """What-if on one prepared zone tree through the exported steps (prepare_problem, get_targets): target it, exchange one
+    stream of a unit-operation zone for another one, let the parents re-import their streams, target again.  Every zone's
+    direct-integration targets must then be the exact cascade of the streams the zone holds *now*."""
+    from OpenPinch import get_targets
+    from OpenPinch.analysis.data_preparation import prepare_problem
+    from OpenPinch.classes.stream import Stream
+    from OpenPinch.classes.stream_collection import StreamCollection
+    from OpenPinch.lib.schema import TargetInput
+    from ..core.sut import call_sut
+
+    out = Outcome()
+    S.clear_graph_accumulator()
+
+    def prep():
+        req = TargetInput.model_validate({"streams": case["streams"], "utilities": case.get("utilities") or []})
+        return prepare_problem(project_name="Site", streams=req.streams, utilities=req.utilities, options=req.options, zone_tree=req.zone_tree)
+
+    ok, master = call_sut(prep)
+    if not ok:
+        out.fail("C01.sut_exception:" + master, f"prepare_problem raised {master}: {call_sut.last_message}")
+        return out
+    ok, r = call_sut(get_targets, master)
+    if not ok:
+        out.fail("C01.sut_exception:" + r, f"get_targets raised {r}: {call_sut.last_message}")
+        return out
+
+    def check(stage):
+        for path, zone in S.walk(master):
+            t = zone.targets.get(f"{zone.name}/{S.DI}")
+            if t is None:
+                continue
+            src = [{"t_supply": x.t_supply, "t_target": x.t_target, "heat_flow": x.heat_flow, "dt_cont": x.dt_cont, "name": x.name} for x in list(zone.hot_streams) + list(zone.cold_streams)]
+            c = C.cascade(C.rstreams(src))
+            eps = float(c.total) * 1e-6 + 1e-9
+            got = (float(t.hot_utility_target), float(t.cold_utility_target), float(t.heat_recovery_target))
+            want = (float(c.Qh), float(c.Qc), float(c.Qr))
+            if any(not abs(a - b) <= eps for a, b in zip(got, want)):
+                out.fail(f"C01.retarget_{stage}", f"{stage}: zone {'/'.join(path) or '<site>'} reports (Qh, Qc, Qr)={got} but the exact cascade of the {len(src)} streams it holds gives {want}")
+                return False
+        return True
+
+    if not check("first"):
+        return out
+    ops = [z for _, z in S.walk(master) if z.identifier == "Unit Operation" and not z.subzones and len(z.hot_streams) + len(z.cold_streams) == 1]
+    if not ops:
+        out.skip = "no-single-stream-operation-zone"
+        return out
+    op = ops[case["swap_idx"] % len(ops)]
+    old = (list(op.hot_streams) + list(op.cold_streams))[0]
+    n = case["new"]
+    hot_old = len(op.hot_streams) == 1
+    ts, tt = (max(n["a"], n["b"]), min(n["a"], n["b"])) if hot_old == case["same_kind"] else (min(n["a"], n["b"]), max(n["a"], n["b"]))
+    new = Stream(name=old.name, t_supply=ts, t_target=tt, heat_flow=n["q"], dt_cont=n["dt"], htc=1.0)
+    coll = StreamCollection()
+    coll.add(new)
+    empty = StreamCollection()
+    if ts > tt:
+        op.hot_streams, op.cold_streams = coll, empty
+    else:
+        op.hot_streams, op.cold_streams = empty, coll
+    out.labels.add("swap-same-kind" if case["same_kind"] else "swap-other-kind")
+    ok, r = call_sut(master.import_hot_and_cold_streams_from_sub_zones)
+    if not ok:
+        out.fail("C01.sut_exception:" + r, f"import_hot_and_cold_streams_from_sub_zones raised {r}: {call_sut.last_message}")
+        return out
+    ok, r = call_sut(get_targets, master)
+    if not ok:
+        out.fail("C01.sut_exception:" + r, f"second get_targets raised {r}: {call_sut.last_message}")
+        return out
+    out.nontrivial = True
+    check("after_swap")
+    return out
+
+
+@st.composite
+def retarget_case(draw, tier):
+    base = draw(G.problem(min_streams=2, max_streams=6, shape="mixed", iso_share=0.0, with_utilities=False, thirds=False))
+    pal = sorted({x for s in base["streams"] for x in (s["t_supply"], s["t_target"])})
+    a = draw(st.sampled_from(pal)) + draw(st.sampled_from([0.0, 10.0, -15.0, 35.0]))
+    b = a + draw(st.sampled_from([20.0, 45.0, 80.0]))
+    base.update({"swap_idx": draw(st.integers(0, 20)), "same_kind": draw(st.sampled_from([True, True, False])), "new": {"a": round(a, 3), "b": round(b, 3), "q": float(draw(st.sampled_from([50.0, 300.0, 1200.0]))), "dt": draw(st.sampled_from([0.0, 5.0, 10.0]))}})
+    return base
+
+
 def strategy(tier):
     mx = 8 if tier == "quick" else 12
     opts = st.sampled_from([None, None, None, {"DO_DIRECT_OPERATION_TARGETING": True}])
@@ -192,7 +277,10 @@ def hot_end(base):
     return build()
 
 
-PARTS = [Part("service", eval_case, {"quick": 2000, "thorough": 60000}, strategy=strategy, min_nontrivial={"quick": 600, "thorough": 15000})]
+PARTS = [
+    Part("service", eval_case, {"quick": 2000, "thorough": 60000}, strategy=strategy, min_nontrivial={"quick": 600, "thorough": 15000}),
+    Part("retarget", eval_retarget, {"quick": 300, "thorough": 8000}, strategy=lambda tier: retarget_case(tier), min_nontrivial={"quick": 80, "thorough": 2000}),
+]
 MIN_SHARE = {
     "service": {
         "pinched": 0.03,
